@@ -25,7 +25,7 @@ IF = "src/IO/interfile.cxx"
 def requests():
     return [
         Request(KP, fn=["stir::KeyParser::.*", "stir::assign_to_list"], enum=["stir::KeyArgument::type"], files=["/repo/src/buildblock/KeyParser.cxx"]),
-        Request(IH, fn=["stir::Interfile.*Header::.*", "stir::MinimalInterfileHeader::.*"], files=["/repo/src/IO/InterfileHeader.cxx"]),
+        Request(IH, fn=["stir::Interfile.*Header::.*", "stir::MinimalInterfileHeader::.*", "stir::find_segment_sequence"], files=["/repo/src/IO/InterfileHeader.cxx"]),
         Request(IF, fn=["stir::read_interfile_.*", "stir::create_image_and_header_from", "stir::is_interfile_signature"], files=["/repo/src/IO/interfile.cxx"]),
     ]
 
@@ -280,6 +280,76 @@ def rule_e(ctx, fns):
         ctx.ob("C17.e-keyword-normalisation", f.qn, "standardise-then-alias-then-lookup", ok, f.where(), "every line's keyword is standardised, alias-resolved, then mapped" if ok else "a path maps the keyword without standardisation/alias resolution first")
 
 
+def rule_f_lists_length_checked(ctx, hfns):
+    """The length of a list-valued key ({a,b,c}) is whatever the header text says.  When a header class hands several such vectors to
+    a helper that indexes them in lock step (the helper takes its bound from ONE of them), the caller must have tested the size of
+    EACH of them against one expected count, with an exit on mismatch, on every path to the call.  Otherwise a short list is read
+    past its end and a long one is silently truncated."""
+    from engine.cfg import CFG
+
+    bodies = {}
+    for f in hfns:
+        if f.body is not None:
+            bodies.setdefault(f.qn, f)
+    n = 0
+    seen = set()
+    for f in hfns:
+        if f.body is None or not f.cfg_raw or f.cls is None or (f.file, f.line) in seen:
+            continue
+        for c in f.calls():
+            callee = bodies.get(c.callee or "")
+            if callee is None or callee is f or len(callee.params) != len(c.call_args()):
+                continue
+            # vector-typed members handed over, which the helper subscripts without (re)sizing them itself
+            lock = []
+            for a, pp in zip(c.call_args(), callee.params):
+                a = a.strip()
+                if not (a.k == "MemberExpr" and a.get("mk") == "field" and a.c and a.c[0].strip().k == "CXXThisExpr" and re.search(r"\bvector<", a.type or "")):
+                    continue
+                pk = "v%d" % pp["d"]
+                subs = [m for m in callee.walk() if m.k == "CXXOperatorCallExpr" and m.op == "[]" and m.c and key(m.c[0].strip()) == pk]
+                resized = [m for m in callee.walk() if m.k == "CXXMemberCallExpr" and re.search(r"::(resize|assign|push_back)$", m.callee or "") and m.c and key(m.c[0].strip()) == pk]
+                if subs and not resized:
+                    lock.append(a)
+            if len(lock) < 2:
+                continue
+            seen.add((f.file, f.line))
+            cfg = CFG(f)
+            from engine.algebra import LocalDefs
+
+            defs = LocalDefs(f)
+            sub = {d: defs.single_def(d) for d in defs.decl}
+            expected = {}
+            for a in lock:
+                fk = key(a)
+                tests = []
+                for g in f.walk():
+                    if g.k != "IfStmt" or len(g.c) < 2:
+                        continue
+                    cnd = g.c[0].strip()
+                    if cnd.k == "UnaryOperator" and cnd.op == "!" and cnd.c and cnd.c[0].strip().k == "BinaryOperator" and cnd.c[0].strip().op == "==":
+                        cnd = cnd.c[0].strip()
+                    elif not (cnd.k == "BinaryOperator" and cnd.op == "!=" and len(cnd.c) == 2):
+                        continue
+                    sides = [key(x.strip(), False, sub) for x in cnd.c]
+                    if fk + ".size()" not in sides:
+                        continue
+                    other = sides[1] if sides[0] == fk + ".size()" else sides[0]
+                    exits = any(x.k == "ReturnStmt" for x in g.c[1].walk()) or any(x.is_call() and (x.callee or "").endswith("::error") for x in g.c[1].walk())
+                    els = [m for m in cnd.walk() if m.i in cfg.pos]
+                    if exits and els and any(cfg.dominates(e, c) for e in els):
+                        tests.append(re.sub(r"static_cast<[^>]*>\((.*)\)$", r"\1", other))
+                ok = bool(tests)
+                if ok:
+                    expected[fk] = tests[0]
+                ctx.ob("C17.f-lists-length-checked", f.qn, "%s:%s" % ((c.callee or "").split("::")[-1], fk.replace("this.", "")), ok, c.where(), "size tested against %s (exit on mismatch) before the helper indexes it" % tests[0] if ok else "`%s` is handed to %s, which indexes it in lock step with %s, without a dominating test of its size: a list of another length in the header is read past its end or silently truncated" % (fk.replace("this.", ""), (c.callee or "").split("::")[-1], ", ".join(key(x).replace("this.", "") for x in lock if x is not a)))
+                n += 1
+            if len(set(expected.values())) > 1:
+                ctx.ob("C17.f-lists-length-checked", f.qn, "%s:one-count" % (c.callee or "").split("::")[-1], False, c.where(), "the lists are tested against different counts: %s" % expected)
+                n += 1
+    return n
+
+
 def run(ctx):
     ctx.explanation = (
         "Decides: (a) every key type registrable through the add_key/add_vectorised_key API has a case in parse_value_in_line, in the "
@@ -307,6 +377,8 @@ def run(ctx):
     rule_c(ctx, hf)
     rule_d(ctx, uniq(us[2].functions), kfns)
     rule_e(ctx, kfns)
+    rule_f_lists_length_checked(ctx, hf)
+    ctx.require_count("C17.f-lists-length-checked", 3)
     ctx.require_count("C17.a-registrable-types-handled", 5)
     ctx.require_count("C17.b-vectorised-index-validated", 2)
     ctx.require_count("C17.c-per-dataset-vectors", 3)
